@@ -370,8 +370,13 @@ func vectorSegmentCheck(prop string, seg segment.Segment, want *spec.Obs, where 
 				v = violation(prop, "vec/num-vectors", "%s: field %q reports num_vectors=%d, the model has %d vectors", where, f, stat[f], len(vf.Entries))
 				return nil
 			}
-			for qi, q := range probeQueries(vf) {
-				for _, k := range []int64{int64(len(vf.Entries)) + 2, 1, 2} {
+			probes, ks := probeQueries(vf), []int64{int64(len(vf.Entries)) + 2, 1, 2}
+			if len(vf.Entries) > 50000 {
+				// every search opens the field anew, and zapx spends seconds per opening here
+				probes, ks = probes[:1], ks[:1]
+			}
+			for qi, q := range probes {
+				for _, k := range ks {
 					got, err := vecSearch(seg, f, q, k, nil, false, nil)
 					if err != nil {
 						return fmt.Errorf("search %q: %w", f, err)
